@@ -198,7 +198,9 @@ impl<T: RealNumber + Scalar + AddAssign + SubAssign + MulAssign + DivAssign + Su
 
     fn to_row_vector(self) -> Self::RowVector {
         let (nrows, ncols) = self.shape();
-        self.reshape_generic(Const::<1>, Dynamic::new(nrows * ncols))
+        // storage is column-major: flatten the transpose to obtain the logical row-major order
+        self.transpose()
+            .reshape_generic(Const::<1>, Dynamic::new(nrows * ncols))
     }
 
     fn get(&self, row: usize, col: usize) -> T {
